@@ -21,6 +21,7 @@ list; a call that throws leaves the system where the throw left it and the histo
 import SvModel.Properties.History
 import SvModel.Properties.CtorProps
 import SvModel.Proofs.SysInv
+import SvModel.Proofs.CopyAssign
 import SvModel.Api
 
 namespace SvModel.System
@@ -32,22 +33,25 @@ inductive MOp (α : Type) where
   | ctorCopy (c o a : Nat)                   -- small_vector (other, alloc), any pair of inline capacities
   | dtor (c : Nat)
   | on (c : Nat) (op : SOp α)
+  | copyAssign (c o : Nat)                   -- c = o (operator= / assign (const small_vector&)), equal or non-propagating allocators
 
 structure St (α : Type) where
   w : World α
   A : List Nat
 
-def MOp.valid (U : List Nat) (s : St α) : MOp α → Prop
+def MOp.valid (cfg : Cfg) (U : List Nat) (s : St α) : MOp α → Prop
   | .ctorVals c _ _ => c ∈ U ∧ c ∉ s.A
   | .ctorCopy c o _ => c ∈ U ∧ c ∉ s.A ∧ o ∈ s.A
   | .dtor c => c ∈ s.A
   | .on c op => c ∈ s.A ∧ op.valid (s.w.hdr c).size
+  | .copyAssign c o => c ∈ s.A ∧ o ∈ s.A ∧ o ≠ c ∧ ((s.w.hdr o).alloc = (s.w.hdr c).alloc ∨ cfg.pocca = false)
 
 def MOp.run (cfg : Cfg) (w : World α) : MOp α → M α Unit
   | .ctorVals c a vs => ctorFill cfg c a true (vs.map Src.ext)
   | .ctorCopy c o a => SvModel.ctorCopy cfg c o a
   | .dtor c => SvModel.dtor cfg c
   | .on c op => op.run cfg c w
+  | .copyAssign c o => SvModel.copyAssign cfg c o
 
 /-- one call: install the fault list, run; a constructor that returns adds its container, a destructor removes it -/
 def step (cfg : Cfg) (s : St α) (x : MOp α × List Nat) : St α :=
@@ -57,7 +61,7 @@ def step (cfg : Cfg) (s : St α) (x : MOp α × List Nat) : St α :=
       { w := w', A := match x.1 with
                      | .ctorVals c _ _ | .ctorCopy c _ _ => c :: s.A
                      | .dtor c => s.A.filter (· ≠ c)
-                     | .on _ _ => s.A }
+                     | .on _ _ | .copyAssign _ _ => s.A }
   | .thrown _ w' => { w := w', A := s.A }
 
 def run (cfg : Cfg) : St α → List (MOp α × List Nat) → St α
@@ -66,7 +70,7 @@ def run (cfg : Cfg) : St α → List (MOp α × List Nat) → St α
 
 def ValidHist (cfg : Cfg) (U : List Nat) : St α → List (MOp α × List Nat) → Prop
   | _, [] => True
-  | s, x :: h => x.1.valid U s ∧ ValidHist cfg U (step cfg s x) h
+  | s, x :: h => x.1.valid cfg U s ∧ ValidHist cfg U (step cfg s x) h
 
 theorem sysAll_faults {cfg : Cfg} {w : World α} {U A : List Nat} (h : SysAll cfg w U A) (f : List Nat) :
     SysAll cfg { w with faults := f } U A :=
@@ -114,7 +118,7 @@ theorem ctorCopy_srcs {cfg : Cfg} {w : World α} {U A : List Nat} {c o : Nat} (h
 
 /-- ONE CALL of the system language keeps the system invariant, whatever the fault list -/
 theorem step_sys (cfg : Cfg) (U : List Nat) (hpol : StrongPolicy cfg) (s : St α) (x : MOp α × List Nat)
-    (hs : SysAll cfg s.w U s.A) (hv : x.1.valid U s) : SysAll cfg (step cfg s x).w U (step cfg s x).A := by
+    (hs : SysAll cfg s.w U s.A) (hv : x.1.valid cfg U s) : SysAll cfg (step cfg s x).w U (step cfg s x).A := by
   obtain ⟨op, f⟩ := x
   have hs0 := sysAll_faults hs f
   generalize hw0 : ({ s.w with faults := f } : World α) = w0 at hs0
@@ -151,6 +155,15 @@ theorem step_sys (cfg : Cfg) (U : List Nat) (hpol : StrongPolicy cfg) (s : St α
     cases hr : op.run cfg c w0 w0 with
     | ok r w' => rw [hr] at h; simp only [MOp.run, hr]; exact hs0.step hc h.1
     | thrown e w' => rw [hr] at h; simp only [MOp.run, hr]; exact hs0.step hc h.1
+  | copyAssign c o =>
+    obtain ⟨hc, ho, hoc, hal⟩ := hv
+    rw [← hh0] at hal
+    obtain ⟨hdef, hmc⟩ := copyAssign_default cfg c o w0 hal
+    have h := copyAssignDefault_sat cfg c o w0 (hs0.ok.vec c hc) hs0.ok.led (hs0.ok.nmax c hc) (hs0.ok.vec o ho) (hs0.ok.nmax o ho)
+      (hs0.ok.foreign hc ho hoc) hmc
+    cases hr : SvModel.copyAssign cfg c o w0 with
+    | ok r w' => rw [← hdef, hr] at h; simp only [MOp.run, hr]; exact hs0.step hc h.basic
+    | thrown e w' => rw [← hdef, hr] at h; simp only [MOp.run, hr]; exact hs0.step hc h.1.1
 
 /-- C02 / C03 / C04 / C06 over histories of several interacting containers -/
 theorem reachable_sys (cfg : Cfg) (U : List Nat) (hpol : StrongPolicy cfg) :
@@ -175,6 +188,154 @@ theorem sys_clauses {cfg : Cfg} {w : World α} {U A : List Nat} (h : SysAll cfg 
   have := (h.ok.led.live_ok b hb).1
   have := (h.ok.vec c hc).inl_lt
   omega
+
+/-! ### contents: every constructed container follows the L0 (`std::vector`) meaning of the calls (C01 over several
+    containers), and a call on one container changes no other (frame) -/
+
+/-- `σ c` = the values container `c` holds -/
+def Tracks (s : St α) (σ : Nat → List (Val α)) : Prop := ∀ c ∈ s.A, Holds s.w c (σ c)
+
+/-- the container a call writes to -/
+def MOp.target : MOp α → Nat
+  | .ctorVals c _ _ | .ctorCopy c _ _ | .dtor c | .on c _ | .copyAssign c _ => c
+
+/-- what std::vector does, for a call that returns -/
+def MOp.spec (σ : Nat → List (Val α)) : MOp α → Nat → List (Val α)
+  | .ctorVals c _ vs => upd σ c (vs.map Val.val)
+  | .ctorCopy c o _ => upd σ c (σ o)
+  | .dtor _ => σ
+  | .on c op => upd σ c (op.spec (σ c))
+  | .copyAssign c o => upd σ c (σ o)
+
+/-- did the call return? -/
+def returned (cfg : Cfg) (s : St α) (x : MOp α × List Nat) : Bool :=
+  match x.1.run cfg { s.w with faults := x.2 } { s.w with faults := x.2 } with
+  | .ok _ _ => true
+  | .thrown _ _ => false
+
+/-- ONE CALL, contents: if it returns, every container holds what L0 says (the target changes, nobody else does);
+    if it throws, every container other than the target still holds what it held, and the target holds SOME list
+    (its own old one for the strong calls — History.step_basic) -/
+theorem step_tracks (cfg : Cfg) (U : List Nat) (hpol : StrongPolicy cfg) (s : St α) (x : MOp α × List Nat) (σ : Nat → List (Val α))
+    (hs : SysAll cfg s.w U s.A) (hv : x.1.valid cfg U s) (ht : Tracks s σ) :
+    (returned cfg s x = true → Tracks (step cfg s x) (x.1.spec σ)) ∧
+    (returned cfg s x = false → ∃ σ', Tracks (step cfg s x) σ' ∧ ∀ d, d ≠ x.1.target → σ' d = σ d) := by
+  obtain ⟨op, f⟩ := x
+  have hs0 := sysAll_faults hs f
+  have ht0 : ∀ c ∈ s.A, Holds ({ s.w with faults := f } : World α) c (σ c) := fun c hc => holds_faults (ht c hc) f
+  generalize hw0 : ({ s.w with faults := f } : World α) = w0 at hs0 ht0
+  have hh0 : w0.hdr = s.w.hdr := by subst hw0; rfl
+  unfold returned step Tracks
+  simp only [hw0]
+  -- a container whose header and buffer contents are unchanged holds the same values
+  have keep : ∀ {w' : World α} {d : Nat} {xs : List (Val α)}, Holds w0 d xs → w'.hdr d = w0.hdr d →
+      w'.mem (w0.hdr d).data = w0.mem (w0.hdr d).data → Holds w' d xs :=
+    fun hx hh hm => ⟨by rw [hh]; exact hx.1, fun i hi => by rw [hh, hm]; exact hx.2 i hi⟩
+  cases op with
+  | ctorVals c a vs =>
+    obtain ⟨hcU, hcA⟩ := hv
+    have hext : External (vs.map (Src.ext (α := α))) := fun s hs => by obtain ⟨x, _, rfl⟩ := List.mem_map.mp hs; rfl
+    have h := SysAll.ctorFill hs0 hcU hcA a true (vs.map Src.ext) (fun h => by cases h) (ctorSrcs_ext cfg w0 c _ hext)
+    have hm : (vs.map Src.ext).map (srcVal w0) = vs.map Val.val := by simp [srcVal, Function.comp_def]
+    cases hr : ctorFill cfg c a true (vs.map Src.ext) w0 with
+    | ok r w' =>
+      rw [hr] at h; simp only [MOp.run, hr]
+      refine ⟨fun _ d hd => ?_, fun h' => by cases h'⟩
+      rcases List.mem_cons.mp hd with hdc | hd'
+      · rw [hdc]; simp only [MOp.spec, upd_same]; rw [← hm]; exact h.2.1
+      · have hne : d ≠ c := fun e => hcA (e ▸ hd')
+        simp only [MOp.spec, upd_other _ _ _ _ hne]
+        exact keep (ht0 d hd') (h.2.2.2 d hd').1 (h.2.2.2 d hd').2
+    | thrown e w' =>
+      rw [hr] at h; simp only [MOp.run, hr]
+      exact ⟨(fun h' => by cases h'), fun _ => ⟨σ, fun d hd => keep (ht0 d hd) (h.2.2 d hd).1 (h.2.2 d hd).2, fun _ _ => rfl⟩⟩
+  | ctorCopy c o a =>
+    obtain ⟨hcU, hcA, ho⟩ := hv
+    obtain ⟨hsrc, hsz⟩ := ctorCopy_srcs hs0 hcU hcA ho
+    have h := SysAll.ctorFill hs0 hcU hcA a ctorCopyChecked _ (fun _ => by simpa using hsz) hsrc
+    have hrun : SvModel.ctorCopy cfg c o a w0 = ctorFill cfg c a ctorCopyChecked (srcsCopy (w0.hdr o).data 0 (w0.hdr o).size) w0 := by
+      unfold SvModel.ctorCopy; rw [bind_run, getV_run]
+    cases hr : ctorFill cfg c a ctorCopyChecked (srcsCopy (w0.hdr o).data 0 (w0.hdr o).size) w0 with
+    | ok r w' =>
+      rw [hr] at h; simp only [MOp.run, hrun, hr]
+      refine ⟨fun _ d hd => ?_, fun h' => by cases h'⟩
+      rcases List.mem_cons.mp hd with hdc | hd'
+      · rw [hdc]; simp only [MOp.spec, upd_same]; rw [← srcsCopy_vals (ht0 o ho)]; exact h.2.1
+      · have hne : d ≠ c := fun e => hcA (e ▸ hd')
+        simp only [MOp.spec, upd_other _ _ _ _ hne]
+        exact keep (ht0 d hd') (h.2.2.2 d hd').1 (h.2.2.2 d hd').2
+    | thrown e w' =>
+      rw [hr] at h; simp only [MOp.run, hrun, hr]
+      exact ⟨(fun h' => by cases h'), fun _ => ⟨σ, fun d hd => keep (ht0 d hd) (h.2.2 d hd).1 (h.2.2 d hd).2, fun _ _ => rfl⟩⟩
+  | dtor c =>
+    have h := SysAll.dtor hs0 hv
+    cases hr : SvModel.dtor cfg c w0 with
+    | ok r w' =>
+      rw [hr] at h; simp only [MOp.run, hr]
+      refine ⟨fun _ d hd => ?_, fun h' => by cases h'⟩
+      have hd' := List.mem_filter.mp hd
+      have hne : d ≠ c := by simpa using hd'.2
+      exact keep (ht0 d hd'.1) (by rw [h.2.1]) (h.2.2 d hd'.1 hne)
+    | thrown e w' => rw [hr] at h; exact h.elim
+  | on c op =>
+    obtain ⟨hc, hvalid⟩ := hv
+    have hp : Pre cfg w0 c := ⟨hs0.ok.vec c hc, hs0.ok.led, hs0.ok.nmax c hc, hs0.ok.ub⟩
+    have h := step_basic cfg c op w0 (σ c) hp hpol (ht0 c hc) (by rw [hh0]; exact hvalid)
+    cases hr : op.run cfg c w0 w0 with
+    | ok r w' =>
+      rw [hr] at h; simp only [MOp.run, hr]
+      refine ⟨fun _ d hd => ?_, fun h' => by cases h'⟩
+      by_cases hdc : d = c
+      · rw [hdc]; simp only [MOp.spec, upd_same]; exact h.2
+      · simp only [MOp.spec, upd_other _ _ _ _ hdc]; exact hs0.ok.holds_other hc h.1 hd hdc (ht0 d hd)
+    | thrown e w' =>
+      rw [hr] at h; simp only [MOp.run, hr]
+      refine ⟨(fun h' => by cases h'), fun _ => ?_⟩
+      obtain ⟨ys, hy⟩ := h.1.vec.holds_exists
+      refine ⟨upd σ c ys, fun d hd => ?_, fun d hd => upd_other _ _ _ _ hd⟩
+      by_cases hdc : d = c
+      · rw [hdc, upd_same]; exact hy
+      · rw [upd_other _ _ _ _ hdc]; exact hs0.ok.holds_other hc h.1 hd hdc (ht0 d hd)
+  | copyAssign c o =>
+    obtain ⟨hc, ho, hoc, hal⟩ := hv
+    rw [← hh0] at hal
+    obtain ⟨hdef, hmc⟩ := copyAssign_default cfg c o w0 hal
+    have h := copyAssignDefault_sat cfg c o w0 (hs0.ok.vec c hc) hs0.ok.led (hs0.ok.nmax c hc) (hs0.ok.vec o ho) (hs0.ok.nmax o ho)
+      (hs0.ok.foreign hc ho hoc) hmc
+    cases hr : SvModel.copyAssign cfg c o w0 with
+    | ok r w' =>
+      rw [← hdef, hr] at h; simp only [MOp.run, hr]
+      refine ⟨fun _ d hd => ?_, fun h' => by cases h'⟩
+      by_cases hdc : d = c
+      · rw [hdc]; simp only [MOp.spec, upd_same]; rw [← srcsCopy_vals (ht0 o ho)]; exact h.holds
+      · simp only [MOp.spec, upd_other _ _ _ _ hdc]; exact hs0.ok.holds_other hc h.basic hd hdc (ht0 d hd)
+    | thrown e w' =>
+      rw [← hdef, hr] at h; simp only [MOp.run, hr]
+      refine ⟨(fun h' => by cases h'), fun _ => ?_⟩
+      obtain ⟨ys, hy⟩ := h.1.1.vec.holds_exists
+      refine ⟨upd σ c ys, fun d hd => ?_, fun d hd => upd_other _ _ _ _ hd⟩
+      by_cases hdc : d = c
+      · rw [hdc, upd_same]; exact hy
+      · rw [upd_other _ _ _ _ hdc]; exact hs0.ok.holds_other hc h.1.1 hd hdc (ht0 d hd)
+
+/-- the std::vector side of a history in which every call returned -/
+def specAll : List (MOp α) → (Nat → List (Val α)) → Nat → List (Val α)
+  | [], σ => σ
+  | op :: h, σ => specAll h (op.spec σ)
+
+def AllReturned (cfg : Cfg) : St α → List (MOp α × List Nat) → Prop
+  | _, [] => True
+  | s, x :: h => returned cfg s x = true ∧ AllReturned cfg (step cfg s x) h
+
+/-- C01 over several containers: along a valid history whose calls all return, every constructed container holds
+    exactly what the corresponding `std::vector`s would hold -/
+theorem sys_refines (cfg : Cfg) (U : List Nat) (hpol : StrongPolicy cfg) :
+    ∀ (h : List (MOp α × List Nat)) (s : St α) (σ : Nat → List (Val α)), SysAll cfg s.w U s.A → Tracks s σ →
+      ValidHist cfg U s h → AllReturned cfg s h → Tracks (run cfg s h) (specAll (h.map (·.1)) σ)
+  | [], _, _, _, ht, _, _ => ht
+  | x :: h, s, σ, hs, ht, hv, ha =>
+    sys_refines cfg U hpol h (step cfg s x) (x.1.spec σ) (step_sys cfg U hpol s x hs hv.1)
+      ((step_tracks cfg U hpol s x σ hs hv.1 ht).1 ha.1) hv.2 ha.2
 
 theorem init_unborn (N M c : Nat) (hc4 : c < 4) : Unborn (initWorld N M : World Int) c := by
   have hnext : (5:Nat) = heapBase := rfl
@@ -232,11 +393,18 @@ theorem init_sys (cfg : Cfg) (N M : Nat) (hN : N ≤ cfg.maxSize) (hM : M ≤ cf
   have : ((initWorld N M : World Int).hdr c).N = (if c < 2 then N else M) := rfl
   rw [this]; split <;> assumption
 
-/-- non-vacuity: a history over three containers with a throwing copy construction and a throwing push_back -/
+/-- non-vacuity: a history over three containers with a throwing copy construction, a throwing insert, a copy assignment
+    across inline capacities (2 ← 3) that reallocates, and a throwing copy assignment -/
 def exHist : List (MOp Int × List Nat) :=
   [(.ctorVals 0 0 [1, 2, 3], []), (.ctorCopy 2 0 0, [1]), (.ctorCopy 2 0 0, []), (.on 0 (.pushBack 4), []), (.on 2 (.insert 1 9), [2]),
-   (.ctorVals 1 0 [], []), (.on 1 (.append [5, 6, 7]), []), (.dtor 0, []), (.on 2 (.erase 0), []), (.dtor 2, []), (.dtor 1, [])]
+   (.ctorVals 1 0 [], []), (.on 1 (.append [5, 6, 7]), []), (.copyAssign 1 0, [2]), (.copyAssign 1 0, []), (.copyAssign 2 1, []),
+   (.dtor 0, []), (.on 2 (.erase 0), []), (.dtor 2, []), (.dtor 1, [])]
 
 example : (run Ex.cfgT ⟨initWorld 2 3, []⟩ exHist).A = [] ∧ (run Ex.cfgT ⟨initWorld 2 3, []⟩ exHist).w.live = [] := by decide +kernel
+/-- after the first ten calls: container 1 (N = 2) and container 2 (N = 3) both hold container 0's values -/
+example : let s := run Ex.cfgT ⟨initWorld 2 3, []⟩ (exHist.take 10)
+    (s.w.mem (s.w.hdr 1).data).take (s.w.hdr 1).size = [.obj (.val 1), .obj (.val 2), .obj (.val 3), .obj (.val 4)] ∧
+    (s.w.mem (s.w.hdr 2).data).take (s.w.hdr 2).size = [.obj (.val 1), .obj (.val 2), .obj (.val 3), .obj (.val 4)] ∧
+    s.w.live.length = 3 := by decide +kernel
 
 end SvModel.System
